@@ -71,6 +71,14 @@ def signature(f):
         return "C21/short-topic/" + k
     if k == "rt-panic" and cls == "auth-method-len-overflow":
         return "C21/rt-panic/auth-method-len-overflow"
+    if k == "bytes-header":
+        # the body is right, the header differs: the mechanism is the header rule, not the packet type
+        d = f.get("d", [])
+        if len(d) >= 4 and d[0] == 1 and len(d) - 2 <= 255:
+            return "C21/bytes-header/long-form-for-size-le-255"
+        if len(d) >= 2 and d[0] != 1 and len(d) > 255:
+            return "C21/bytes-header/short-form-for-size-gt-255"
+        return "C21/bytes-header/length-field"
     if k in KIND_PROP:
         return "C21/%s/%s%s" % (k, tn, "/" + fld if fld else "")
     return "X/%s/%s/%s" % (k, cls, tn)
